@@ -600,6 +600,19 @@ def tamper_matrix() -> list[dict]:
                         fu = [dict(x, ro=True) if x["op"] in ("Check", "Status") and len(cases) % 2 else x for x in fu]
                         cases.append({"init": full, "ops": [{"op": "Tamper", "s": s, "o": o, "pat": pat}] + fu,
                                       "kind": "tamper-matrix", "state": state})
+        # ... and a directory object edited so that it still parses (trailing white space), met by the queries that
+        # read it: the check, the shallow and the expanding existence query, the source side of an expanding push
+        for d in DIRS:
+            for pat in ("append", "rename600"):
+                for state in ("noop", "warm"):
+                    req = [d] + sorted(DIRS[d])
+                    for fu in ([{"op": "Check", "s": s, "o": d}],
+                               [{"op": "Status", "s": s, "ids": [d], "shallow": False, "idx": False}, {"op": "Check", "s": s, "o": d}],
+                               [{"op": "Status", "s": s, "ids": req, "shallow": True, "idx": False}],
+                               [{"op": "Transfer", "src": s, "dst": other, "req": [d], "shallow": False, "idx": False, "F": []}]):
+                        init = full if fu[0]["op"] != "Transfer" else {**full, other: {}}
+                        cases.append({"init": init, "ops": [{"op": "Tamper", "s": s, "o": d, "pat": pat}] + fu,
+                                      "kind": "tamper-dir", "state": state})
     return cases
 
 
